@@ -499,6 +499,7 @@ def run(chk, replay=None):
     confirmed = set()
     inconcl = 0
     n_nslist = 0
+    nslist_obs = []
     for rq, meta, o in zip(reqs, metas, obs):
         rc = meta["rc"]
         ep = (rc["path"], rc["method"])
@@ -552,6 +553,7 @@ def run(chk, replay=None):
                 inconcl += 1
             else:
                 n_nslist += 1
+                nslist_obs.append((ep, meta["cls"], meta["group"], [x or "" for x in listed], rp_obj))
                 for ns_l in listed:
                     ns_l = ns_l or ""
                     if not permitted(meta["group"], ns_l):
@@ -561,6 +563,19 @@ def run(chk, replay=None):
                                      % (rc["method"], rc["path"], ns_l, meta["cls"]), dict(rp_obj, listed=listed))
                         break
     chk.cov["namespace_listings_judged"] = n_nslist
+    # correspondence Auth.Privilege.namespace_list: over the namespaces that exist (= what the unrestricted class is shown at
+    # the same endpoint) the listing of every class must be the model's, entry by entry (completeness included)
+    all_of = {ep: l for ep, cls, grp, l, rp in nslist_obs if cls == "all"}
+    todo = [(ep, cls, grp, l, rp) for ep, cls, grp, l, rp in nslist_obs if ep in all_of]
+    if todo:
+        exprs = ["nslist_flags %s %s" % (group_coq(grp), cps_list(all_of[ep])) for ep, cls, grp, l, rp in todo]
+        for (ep, cls, grp, l, rp), flags in zip(todo, lib.coq_eval_sharded("c18n", HEADER, exprs, per=30)):
+            want = [i for i, f in zip(all_of[ep], flags) if f == "true"]
+            n_eval += 1
+            if want != l:
+                chk.violation("model != implementation (namespace listing) %s %s class %s: model lists %s, the console lists %s"
+                              % (ep[1], ep[0], cls, want, l), dict(rp, correspondence="Auth.Privilege.namespace_list", model=want, impl=l), False)
+        chk.cov["namespace_listings_vs_model"] = len(todo)
     # every statically unguarded data endpoint is a finding even when the sweep has no recipe for it
     for p, m in static_unguarded:
         chk.classify("unguarded:%s:%s" % (m, p), "%s %s (handler %s) applies no namespace privilege" % (m, p, handler_of[(p, m)]),
